@@ -21,9 +21,15 @@ This table, the emitter below and Model/PyRt4.v (object representation + combina
 CLOSED IDIOM TABLE        (s = the model state = the Tracks object with everything reachable from it;
                            Python variable x = Gallina variable v_x; re-assignment = shadowing `let`)
  -- skipped (nothing else is)
- docstrings; parameter / return annotations (they only select the types below); defaults of parameters
- (every parameter is explicit in Gallina); `super().__init__(tracks)` as first statement of
- UpdateNodeAttrs.__init__ (stores self.tracks); decorators other than @property are Unsupported
+ docstrings; parameter / return annotations (they only select the types below; the annotation of `x: T = e`
+ is ignored); defaults of parameters (only None / True / False are accepted; every parameter is explicit in
+ Gallina); `super().__init__(tracks)` as first statement of UpdateNodeAttrs.__init__ (stores self.tracks);
+ the text of exception messages.  Decorators other than @property, and any class-level statement that
+ rebinds a translated method, are Unsupported; so is a RegionpropsAnnotator / EdgeAnnotator / TrackAnnotator
+ that defines or assigns activate_features, deactivate_features, features, _filter_feature_keys,
+ all_features, __getattr__, __getattribute__ or __setattr__ (the translated base-class code would not be
+ what runs), and a Tracks._get_annotators that does not append exactly RegionpropsAnnotator, EdgeAnnotator,
+ TrackAnnotator, in this order (the order of `registry`)
  -- objects (receivers; representation in Model/PyRt4.v)
  self           in GraphAnnotator          the annotator's identity  self : ann
  self           in AnnotatorRegistry       the registry = tracks.annotators;  `for a in self` iterates `registry`
@@ -63,7 +69,8 @@ CLOSED IDIOM TABLE        (s = the model state = the Tracks object with everythi
                                            <carried> = the locals assigned in the body that exist before the loop;
                                            no return / break / continue inside a loop
  return e                                  Ok e s  (effectful)  |  e  (pure);   falling off the end: Ok tt s
- raise KeyError(msg) / ValueError(msg)     Err EKey s / Err EValue s      (msg: a string or an f-string over locals)
+ raise KeyError(msg) / ValueError(msg)     Err EKey s / Err EValue s      (msg: a string or an f-string over locals,
+                                           conversions !r !s allowed: evaluating it cannot raise)
  -- a method is PURE (emitted as a plain function of s) when it contains no raise, no d[k] read, no
  -- assignment / del through an object and no call of an effectful method; otherwise it lives in `res`
  -- expressions (a raising sub-expression is bound first: do t, s <- ..; not allowed in a pure method
@@ -74,7 +81,7 @@ CLOSED IDIOM TABLE        (s = the model state = the Tracks object with everythi
  not c                                     negb c
  True False                                true false
  (a, b)   (Feature, bool)                  (a, b)
- {}                                        []
+ x = {}                                    no code: x stands for [] until its first x.update(e), which types it
  d.keys()   list(e)   set(e)               keys d     e     py_set e
  [x for x in l if c]                       filter (fun v_x => c) l
  {k: v for k, (a, b) in d.items() if c}    fold_left (fun acc '(v_k, (v_a, v_b)) => if c then set k v acc else acc) d []   (typed binders)
@@ -554,7 +561,6 @@ def translate_method(cls, fn, is_prop, body=None):
         rty = ""
     else:
         txt = block(stmts, env, lambda e: "Ok tt s")
-        if terminates([s for s in stmts if not is_docstring(s)]) and not CUR["ret"]: pass
         if CUR["ret"]: fail(fn, "an effectful method that returns a value")      # none in the translated sources
         rty = " : res unit"
     oracle = fn.name in ORACLE
@@ -619,6 +625,25 @@ def check_no_override(root):
                         if isinstance(y, ast.Attribute) and y.attr in NO_OVERRIDE and not isinstance(y.ctx, ast.Load): fail(x, "%s rebinds %s" % (cls, y.attr))
 
 
+def check_registry_order(root):
+    """`registry` (Model/PyRt4.v) lists the annotators in the order Tracks._get_annotators appends them"""
+    path = os.path.join(root, "data_model/tracks.py")
+    src, c = get_class(path, "Tracks")
+    ms = members(c, "_get_annotators")
+    if len(ms) != 1: raise Unsupported("%s: Tracks._get_annotators defined %d times" % (path, len(ms)))
+    order = []
+    for x in ast.walk(ms[0]):
+        if (isinstance(x, ast.Call) and isinstance(x.func, ast.Attribute) and x.func.attr in ("append", "insert", "extend")
+                and isinstance(x.func.value, ast.Name) and x.func.value.id == "annotator_list"):
+            if x.func.attr != "append" or len(x.args) != 1 or not (isinstance(x.args[0], ast.Call) and isinstance(x.args[0].func, ast.Name)):
+                fail(x, "_get_annotators: annotator_list is filled in another way than append(<Class>(..))")
+            order.append((x.lineno, x.args[0].func.id))
+    if [n for _, n in sorted(order)] != [cls for _, cls in SUBCLASSES]:
+        fail(ms[0], "_get_annotators: annotators are not appended in the order %s" % [cls for _, cls in SUBCLASSES])
+    r = [s for s in ms[0].body if isinstance(s, ast.Return)]
+    if len(r) != 1 or ast.unparse(r[0]) != "return AnnotatorRegistry(annotator_list)": fail(ms[0], "_get_annotators: return statement")
+
+
 HEADER = """(* GENERATED by harness/translate_toggle.py from %s/src/funtracks -- do not edit.
    Shallow embedding of Tracks.enable_features / disable_features, the AnnotatorRegistry / GraphAnnotator
    methods they reach, and the protected-key test of UpdateNodeAttrs.__init__, over the model state of
@@ -636,6 +661,7 @@ def main(repo=None):
     root = os.path.join(repo, "src", "funtracks")
     CUR["done"] = set()
     check_no_override(root)
+    check_registry_order(root)
     parts = [HEADER % repo]
     for rel, cls, methods in UNITS:
         parts.append(translate_unit(root, rel, cls, methods))
